@@ -12,6 +12,8 @@ fn bad_dens(t: Tok) -> Vec<Den> {
         Den::LocalPrefix(Base::Tok(t)),
         Den::Nested(Base::Tok(t)),
         Den::TwoParts,
+        Den::Suffixed(Base::Tok(t)),
+        Den::TrailingSlash(Base::Tok(t)),
     ]
 }
 
@@ -98,7 +100,7 @@ fn default_cfg(name: &str, thorough: bool) -> Cfg {
     c.senders = vec![A];
     c.send_toks = vec![T1, T2];
     c.proper = vec![Base::Tok(T1), Base::Tok(T2)];
-    c.bad = vec![Den::OtherChannel(Base::Tok(T2)), Den::Foreign(Base::Tok(T2))];
+    c.bad = vec![Den::OtherChannel(Base::Tok(T2)), Den::Foreign(Base::Tok(T2)), Den::Suffixed(Base::Tok(T2))];
     c.recv_amounts = vec![1, 2, 3];
     c.fault_bound = 1;
     c.fault_kinds = vec![Fault::Reject, Fault::Gas];
@@ -126,6 +128,7 @@ fn pair_cfg(name: &str, thorough: bool) -> Cfg {
         Den::OtherChannel(Base::Tok(T1)),
         Den::Foreign(Base::Tok(N0)),
         Den::OtherPort(Base::Tok(T1)),
+        Den::Suffixed(Base::Tok(N0)),
     ];
     c.recv_amounts = vec![1, 2];
     c.fault_bound = 1;
@@ -467,7 +470,13 @@ fn configs(prop: &str, thorough: bool) -> Vec<(Cfg, Option<usize>)> {
                     c.max_inflight = 2;
                     c.gov_actors = vec![G, G2, X];
                     c.allow_tokens = vec![0, 1];
-                    c.allow_limits = vec![None, Some(0), Some(1), Some(3)];
+                    // 0 and u64::MAX are genuine limits (not sentinels for "none"); u64::MAX-1 is added in
+                    // the configurations that start with an unlimited token (budget)
+                    c.allow_limits = if *an == "allow[T1:unlimited]" {
+                        vec![None, Some(0), Some(1), Some(u64::MAX - 1), Some(u64::MAX)]
+                    } else {
+                        vec![None, Some(0), Some(1), Some(u64::MAX)]
+                    };
                     c.admin_targets = vec![G, G2];
                     c.migrate_limits = vec![None, Some(0), Some(3)];
                     if thorough {
@@ -500,7 +509,7 @@ fn configs(prop: &str, thorough: bool) -> Vec<(Cfg, Option<usize>)> {
 fn describe(prop: &str) -> (&'static str, &'static str) {
     match prop {
         "C11" => (
-            "user Transfer (native, with funds) and cw20 Send{TransferMsg} of 1-2 (thorough 1-3) tokens by A and B on either of two channels while < 2 (3) packets are in flight, with plain channel ids (channel-1/2, counterparty ends channel-71/72) and with CROSSED ids (local channel-5 <-> remote channel-15, local channel-15 <-> remote channel-5); incoming packets on either channel with denom in {proper voucher of this channel for the sent token / a never-sent token / cw20:<garbage> / cw20:<non-contract>, voucher prefix of the OTHER channel, other port, un-prefixed foreign denom, our own port/channel prefix, doubled prefix, two-part denom}, amount in {1,2,3,2^64}, receiver in {valid user(s), invalid address}, memo unset or \"x\", raw non-ICS20 bytes; two channels escrowing 2^64-1 of the same denom each with returning packets of 2^64-1 / 2^64 / 2^65-2; old-layout storages incl. a drained denom (outstanding 0) with a send in flight; for every packet in flight Ack(success) | Ack(error) | Ack(garbage) | Timeout in any order; payout / refund sub-call made to fail (recipient or token rejects; every gas-limited sub-call runs out of gas), at most 1 (thorough 2) faults per history",
+            "user Transfer (native, with funds) and cw20 Send{TransferMsg} of 1-2 (thorough 1-3) tokens by A and B on either of two channels while < 2 (3) packets are in flight, with plain channel ids (channel-1/2, counterparty ends channel-71/72) and with CROSSED ids (local channel-5 <-> remote channel-15, local channel-15 <-> remote channel-5); incoming packets on either channel with denom in {proper voucher of this channel for the sent token / a never-sent token / cw20:<garbage> / cw20:<non-contract>, voucher prefix of the OTHER channel, other port, un-prefixed foreign denom, our own port/channel prefix, doubled prefix, two-part denom, proper prefix + '<escrowed denom>/junk' and '<escrowed denom>/'}, amount in {1,2,3,2^64}, receiver in {valid user(s), invalid address}, memo unset or \"x\", raw non-ICS20 bytes; two channels escrowing 2^64-1 of the same denom each with returning packets of 2^64-1 / 2^64 / 2^65-2; old-layout storages incl. a drained denom (outstanding 0) with a send in flight; for every packet in flight Ack(success) | Ack(error) | Ack(garbage) | Timeout in any order; payout / refund sub-call made to fail (recipient or token rejects; every gas-limited sub-call runs out of gas), at most 1 (thorough 2) faults per history",
             "after every step, for every token: real holdings of the ics20 contract (kernel bank / cw20 Balance) >= sum over channels of Channel{id}.balances; monitor per (channel, denom): credit = escrowed by accepted transfers - really paid out (redemptions + refunds, measured as falls of the contract's real balance in steps on that channel) >= 0; a packet whose denom is not a proper voucher of this channel for a local token, or whose amount exceeds the channel balance reported before the step, or that is not ICS-20 data moves no bank or cw20 balance at all; holdings never move in governance / migrate steps",
         ),
         "C12" => (
@@ -508,7 +517,7 @@ fn describe(prop: &str) -> (&'static str, &'static str) {
             "reference per (channel, denom): outstanding = accepted sends - sends whose error-ack/timeout was processed - amounts of incoming packets answered with a success ack, compared with Channel{id}.balances after every step; total_sent never falls; per incoming packet: ibc_packet_receive never returns Err/panics; success ack => receiver's real balance rose by exactly the amount and the channel balance fell by it; error ack => ALL Channel queries, all bank and cw20 balances, Config, Admin, ListAllowed, Allowed and the packets in flight equal the pre-state; per accepted transfer: exactly one committed IbcMsg::SendPacket, by the ics20 contract, on the requested channel, data == {amount (<= 2^64-1), denom (native name | cw20:<token>), receiver, sender = paying user, memo iff requested}, timeout timestamp == block time + (requested | default) seconds, contract holdings rose and payer's balance fell by the amount; migrations leave balances alone and arrive at outstanding == escrow",
         ),
         "C18" => (
-            "initial allow lists [] | [T1:unlimited] | [T1:1] x default gas limit None | 2; Allow{T1|T2, None|0|1|3} (0 is a genuine limit) and UpdateAdmin{G|G2} by governance G, the later/former governance G2 and a stranger X; Migrate{None|0|3} at every state; cw20 transfers of T1 (by user A) and of T2 (by the governance account G itself, which becomes the former governance after UpdateAdmin), native transfers, and transfers of a BANK coin whose denom is literally \"cw20:<T2>\"; incoming packets redeeming them; error acks and timeouts that trigger refunds",
+            "initial allow lists [] | [T1:unlimited] | [T1:1] x default gas limit None | 2; Allow{T1|T2, None|0|1|2^64-2|2^64-1} (0 and u64::MAX are genuine limits) and UpdateAdmin{G|G2} by governance G, the later/former governance G2 and a stranger X; Migrate{None|0|3} at every state; cw20 transfers of T1 (by user A) and of T2 (by the governance account G itself, which becomes the former governance after UpdateAdmin), native transfers, and transfers of a BANK coin whose denom is literally \"cw20:<T2>\"; incoming packets redeeming them; error acks and timeouts that trigger refunds",
             "reference {gov, allow: token -> limit, default} == Admin, Config.gov_contract, Config.default_gas_limit, fully paged ListAllowed, Allowed{T1}, Allowed{T2} after every step; Allow / UpdateAdmin accepted only from the reference governance; admin, allow list and default change in no other step (migrate may set, never unset, the default); a listed token never disappears, its limit never falls, unlimited stays unlimited (checked against the reference and, independently, pre vs. post listing); a cw20 transfer is accepted only if the token is listed or a default exists; every payout / refund sub-message dispatched by the contract carries gas_limit == allow[token] if listed (None if unlimited) else the default, native payouts carry none",
         ),
         _ => ("", ""),
